@@ -29,8 +29,24 @@ class SNorm(SReal):
 
     @property
     def e(self):
+        """sqrt variable, created on first use.  sq is a sum of squares by
+        construction, so no `sq < 0` branch is needed (ssqrt would fork on it)."""
         if self._r is None:
-            self._r = sym.ssqrt(SReal(self.sq)).e
+            c = sym.ctx()
+            v = sym.numeral_value(self.sq)
+            if v is not None or c is None:
+                self._r = sym.ssqrt(SReal(self.sq)).e
+            else:
+                key = self.sq.get_id()
+                hit = c.sqrt_cache.get(key)
+                if hit is not None and hit[0].eq(self.sq):
+                    self._r = hit[1].e
+                else:
+                    r = z3.Real(c.fresh_name('norm'))
+                    c.add(r >= 0)
+                    c.add(r * r == self.sq)
+                    c.sqrt_cache[key] = (self.sq, SReal(r))
+                    self._r = r
         return self._r
 
     def _cmp2(self, o, op):
@@ -81,9 +97,37 @@ def norm(x, *a, **kw):
     return npshim.norm(x, *a, **kw)
 
 
-def install(ld, modules):
+def norm_zc(x, *a, **kw):
+    """Like norm(), but components that the solver shows to be zero on the
+    current path (pc AND component != 0 is unsat) are dropped first; a single
+    remaining component c gives |c| exactly (no square root at all).  Meant
+    for axis-parallel configurations, where one component of every difference
+    vector vanishes semantically but not syntactically."""
+    if not a and not kw and npshim._has_sym(x):
+        c = sym.ctx()
+        arr = _np.asarray(x, dtype=object).ravel()
+        keep = []
+        for v in arr:
+            if not isinstance(v, SReal):
+                if v != 0: keep.append(v)
+                continue
+            e = z3.simplify(v.e)
+            nv = sym.numeral_value(e)
+            if nv is not None:
+                if nv != 0: keep.append(v)
+                continue
+            r, _ = c.solve(e != 0)
+            if r != 'unsat': keep.append(v)
+        npshim._hit('np.linalg.norm (zero components dropped by solver lemma; |c| for a single component)')
+        if not keep: return SReal(z3.RealVal(0))      # stays a proxy: the caller's object array must not mix in floats
+        if len(keep) == 1: return abs(keep[0])
+        return norm(_np.array(keep, dtype=object))
+    return npshim.norm(x, *a, **kw)
+
+
+def install(ld, modules, zero_check=False):
     """Rebind the global name `norm` in the given reloaded modules."""
     for m in modules:
         mod = getattr(ld, m)
         if 'norm' in mod.__dict__:
-            mod.__dict__['norm'] = norm
+            mod.__dict__['norm'] = norm_zc if zero_check else norm
